@@ -30,3 +30,7 @@ check("C09", "exhaustive permutation of generated rule sets x 4 load paths; meta
       "For fixed and Hypothesis-generated rule sets (plain rules, correlation rules by name/id, chains to depth 3, generate on/off, dangling references) every permutation of up to 6 documents is loaded through from_yaml, from_dicts, merge and load_ruleset and converted; outcome class, emitted query multiset and per-rule results must equal those of the identity order.",
       "Queries compared as strings of the shipped test backend; mixed generate/non-generate references not asserted.",
       "DESIGN.md section 3, C09")
+check("C08", "Hypothesis collections with planted failures at every stage; differential oracle: collection conversion vs per-rule fresh conversions",
+      "Collections of 1-6 single/multi-condition rules in which any subset fails at one of ten stages (pipeline failure items, unresolved placeholder, bool/CIDR keyword, unsupported value kind, missing detection, later condition, negated leaf in not-equals mode), with and without pipeline and error collection, compared with fresh per-rule conversions (new backend class, new pipeline).",
+      "String comparison of queries; errors compared by type and message.",
+      "DESIGN.md section 3, C08")
